@@ -5,6 +5,7 @@ CONSTANTS
   MaxParents = 3
   MaxPerTx = 2
   AllowHide = TRUE
+  Shape = "any"
   Bug = "none"
-INVARIANTS InvWellFormed InvQueries InvGeometric InvSquashKeeps InvMergeComplete InvLevelsRule EmitInv
+INVARIANTS InvWellFormed InvQueries InvGeometric InvSquashKeeps InvMergeComplete InvLevelsRule InvMemo EmitInv
 CHECK_DEADLOCK FALSE
